@@ -129,6 +129,14 @@ func PlusContents() []Content {
 	add("oddPropertyNames", "plus-names", func(b *BundleSpec, s int) J {
 		return J{"type": "object", "properties": J{"50%": simpleObj("pct"), ".": simpleObj("dot"), "..": simpleObj("dotdot"), "": simpleObj("empty"), "a%2Fb": simpleObj("enc")}}
 	})
+	// a $ref next to sibling keywords that hold further $refs: the meaning of such an object is its $ref alone, the siblings
+	// stay in the document; W never has siblings of a $ref
+	add("refWithSiblings", "plus-siblings", func(b *BundleSpec, s int) J {
+		b.Add(RootFile, P(simpleObj("sibTarget"), "definitions", "sibTarget"), P(simpleObj("sibOther"), "definitions", "sibOther"))
+		b.Add(AuxA, P(simpleObj("sibAux"), "definitions", "sibAux"))
+		return J{"$ref": "#/definitions/sibTarget", "description": "sibling description", "properties": J{"x": J{"$ref": AuxA + "#/definitions/sibAux"}, "y": LocalRef("sibOther"), "z": simpleObj("sibInline")},
+			"allOf": []any{J{"$ref": "#/definitions/sibTarget/properties/id"}}}
+	})
 	// dangling $refs
 	ptrTo("danglingLocalDefinition", "#/definitions/nope", nil)
 	ptrTo("danglingLocalPointer", "#/definitions/nope/properties/x", nil)
